@@ -79,8 +79,8 @@ def run(ctx):
                    "RunSingleModelJSON crashed the process (%s) on a %s request for %s: %s" % (
                        first[0] if first else "?", q.get("class"), q.get("model"), base64.b64decode(q.get("bytes", ""))[:400]),
                    {"request": base64.b64decode(q.get("bytes", "")).decode("utf-8", "replace"), "class": q.get("class"), "stderr": err[-2500:]})
-        if crashes > 400:
-            raise Infra("too many crashes")
+        if crashes > max(400, len(byid) // 5):
+            raise Infra("too many crashes (%d of %d requests)" % (crashes, len(byid)))
     bad = 0
     nres = 0
     with open(results) as f:
